@@ -77,53 +77,53 @@ Lemma apply_block_J buffer s K b :
   exists s', apply_block (app_of buffer b) s = ROk s' /\ J buffer s' (b :: K) /\
              (forall id, negof1 s' id = negof1 s id) /\ (forall id, negof2 s' id = negof2 s id).
 Proof.
-  intros HJ Hbv. pose proof HJ as (Hs & Hck & Hr1 & Hr2). pose proof Hbv as (Hn1 & Hn2 & V1 & V2).
-  (* what we know about a row and the change the block carries for it *)
+  intros HJ Hbv. pose proof HJ as (Hs & Hck & Hr1 & Hr2). pose proof Hbv as (Hok & V1 & V2).
+  (* what we know about a row and the changes the block carries for it *)
   assert (F1 : forall id c, find1 id (cs1 s) = Some c ->
-             (forall e, ev1_of (id1 c) b = Some e -> exists r, row1_of (bheight b) e c = ROk r) /\
+             rows_ok1 (bheight b) (evl1_of (id1 c) b) c /\
              (forall hm, rej_arg buffer (bheight b) = Some hm -> q_rej1 hm (evrow1 (bheight b) b c) = true ->
                 exists r, rej1 (evrow1 (bheight b) b c) = ROk r) /\
              heqv1 (spec_block1 buffer (neg1 c) (id1 c) b (proj1 c)) (spec1 buffer (neg1 c) id (b :: K))).
   { intros id c Ef. destruct (row_facts1 _ _ _ _ _ HJ Ef) as (Hq & Hc & Hid & Hng).
-    assert (Hv : forall e, ev1_of id b = Some e -> valid1 e (spec1 buffer (neg1 c) id K)).
-    { intros e E. destruct (V1 id e E) as (ng & Hn & Hv). congruence. }
+    assert (Hv : valid_evs1 (bheight b) (evl1_of id b) (spec1 buffer (neg1 c) id K)).
+    { destruct (evl_dec (evl1_of id b)) as [E|E]; [rewrite E; exact I|].
+      destruct (V1 id E) as (ng & Hn & Hv). congruence. }
     rewrite Hid.
-    assert (P : forall e, ev1_of id b = Some e -> exists r, row1_of (bheight b) e c = ROk r).
-    { intros e E. eapply row1_succeeds; eauto. }
+    assert (P : rows_ok1 (bheight b) (evl1_of id b) c) by (eapply rows1_succeed; eauto).
     split; [exact P|]. split.
     - intros hm Hrj Hqr.
       destruct (evrow1_proj (bheight b) b c) as [A B]; [rewrite Hid; exact P|]. rewrite Hid in A.
       set (x := spec1 buffer (neg1 c) id K) in *.
-      apply (rej1_succeeds hm _ (match ev1_of id b with Some e => spec_ev1 (bheight b) e x | None => x end)); [| |exact Hqr].
-      + destruct (ev1_of id b) as [e|]; [apply cinv1_ev; auto|exact Hc].
-      + rewrite A. destruct (ev1_of id b) as [e|]; [apply heqv1_ev; auto|exact Hq].
+      apply (rej1_succeeds hm _ (spec_evs1 (bheight b) (evl1_of id b) x)); [| |exact Hqr].
+      + apply cinv1_evs; auto.
+      + rewrite A. apply heqv1_evs; auto.
     - rewrite spec1_cons. apply heqv1_block; auto. }
   assert (F2 : forall id c, find2 id (cs2 s) = Some c ->
-             (forall e, ev2_of (id2 c) b = Some e -> exists r, row2_of (bidx b) e c = ROk r) /\
+             rows_ok2 (bidx b) (evl2_of (id2 c) b) c /\
              (forall hm, rej_arg buffer (bheight b) = Some hm -> q_rej2 hm (evrow2 (bidx b) b c) = true ->
                 exists r, rej2 (evrow2 (bidx b) b c) = ROk r) /\
              heqv2 (spec_block2 buffer (neg2 c) (id2 c) b (proj2 c)) (spec2 buffer (neg2 c) id (b :: K))).
   { intros id c Ef. destruct (row_facts2 _ _ _ _ _ HJ Ef) as (Hq & Hc & Hid & Hng).
-    assert (Hv : forall e, ev2_of id b = Some e -> valid2 e (spec2 buffer (neg2 c) id K)).
-    { intros e E. destruct (V2 id e E) as (ng & Hn & Hv). congruence. }
+    assert (Hv : valid_evs2 (bidx b) (evl2_of id b) (spec2 buffer (neg2 c) id K)).
+    { destruct (evl_dec (evl2_of id b)) as [E|E]; [rewrite E; exact I|].
+      destruct (V2 id E) as (ng & Hn & Hv). congruence. }
     rewrite Hid.
-    assert (P : forall e, ev2_of id b = Some e -> exists r, row2_of (bidx b) e c = ROk r).
-    { intros e E. eapply row2_succeeds; eauto. }
+    assert (P : rows_ok2 (bidx b) (evl2_of id b) c) by (eapply rows2_succeed; eauto).
     split; [exact P|]. split.
     - intros hm Hrj Hqr.
       destruct (evrow2_proj (bidx b) b c) as [A B]; [rewrite Hid; exact P|]. rewrite Hid in A.
       set (x := spec2 buffer (neg2 c) id K) in *.
-      apply (rej2_succeeds hm _ (match ev2_of id b with Some e => spec_ev2 (bidx b) e x | None => x end)); [| |exact Hqr].
-      + destruct (ev2_of id b) as [e|]; [apply cinv2_ev; auto|exact Hc].
-      + rewrite A. destruct (ev2_of id b) as [e|]; [apply heqv2_ev; auto|exact Hq].
+      apply (rej2_succeeds hm _ (spec_evs2 (bidx b) (evl2_of id b) x)); [| |exact Hqr].
+      + apply cinv2_evs; auto.
+      + rewrite A. apply heqv2_evs; auto.
     - rewrite spec2_cons. apply heqv2_block; auto. }
-  destruct (apply_block_rows buffer b s Hs Hn1 Hn2) as (s' & E & Hs' & Hf1 & Hf2).
-  { intros id e Ev. destruct (V1 id e Ev) as (ng & Hn & _). apply negof1_some in Hn. destruct Hn as (c & Ef & _).
-    destruct (F1 id c Ef) as (P & _ & _). destruct (row_facts1 _ _ _ _ _ HJ Ef) as (_ & _ & Hid & _).
-    rewrite Hid in P. destruct (P e Ev) as [r Hr]. eauto. }
-  { intros id e Ev. destruct (V2 id e Ev) as (ng & Hn & _). apply negof2_some in Hn. destruct Hn as (c & Ef & _).
-    destruct (F2 id c Ef) as (P & _ & _). destruct (row_facts2 _ _ _ _ _ HJ Ef) as (_ & _ & Hid & _).
-    rewrite Hid in P. destruct (P e Ev) as [r Hr]. eauto. }
+  assert (I1 : forall id c, find1 id (cs1 s) = Some c -> id1 c = id) by (intros id c Ef; apply (find1_in_ids _ _ _ Ef)).
+  assert (I2 : forall id c, find2 id (cs2 s) = Some c -> id2 c = id) by (intros id c Ef; apply (find2_in_ids _ _ _ Ef)).
+  destruct (apply_block_rows buffer b s Hs) as (s' & E & Hs' & Hf1 & Hf2).
+  { intros id Ev. destruct (V1 id Ev) as (ng & Hn & _). unfold negof1 in Hn. destruct (find1 id (cs1 s)); [discriminate|discriminate]. }
+  { intros id Ev. destruct (V2 id Ev) as (ng & Hn & _). unfold negof2 in Hn. destruct (find2 id (cs2 s)); [discriminate|discriminate]. }
+  { intros id c Ef. destruct (F1 id c Ef) as (P & _ & _). rewrite (I1 id c Ef) in P. exact P. }
+  { intros id c Ef. destruct (F2 id c Ef) as (P & _ & _). rewrite (I2 id c Ef) in P. exact P. }
   { intros hm id c Hrj Ef. apply (F1 id c Ef). exact Hrj. }
   { intros hm id c Hrj Ef. apply (F2 id c Ef). exact Hrj. }
   assert (N1 : forall id, negof1 s' id = negof1 s id).
@@ -153,46 +153,44 @@ Lemma revert_block_J buffer s K b :
              (forall id, negof1 s' id = negof1 s id) /\ (forall id, negof2 s' id = negof2 s id).
 Proof.
   intros HJ. pose proof HJ as (Hs & Hck & Hr1 & Hr2).
-  destruct Hck as [Hbv Hk]. pose proof Hbv as (Hn1 & Hn2 & V1 & V2).
+  destruct Hck as [Hbv Hk]. pose proof Hbv as (Hok & V1 & V2).
   assert (F1 : forall id c, find1 id (cs1 s) = Some c ->
-             (forall e, ev1_of (id1 c) b = Some e -> exists r, rrow1_of e c = ROk r) /\
-             heqv1 (match ev1_of (id1 c) b with Some e => rspec_ev1 e (proj1 c) | None => proj1 c end)
-                   (spec1 buffer (neg1 c) id K)).
+             rrows_ok1 (evl1_of (id1 c) b) c /\
+             heqv1 (rspec_evs1 (evl1_of (id1 c) b) (proj1 c)) (spec1 buffer (neg1 c) id K)).
   { intros id c Ef. destruct (row_facts1 _ _ _ _ _ HJ Ef) as (Hq & _ & Hid & Hng).
     pose proof (spec1_cinv _ _ _ _ _ _ Hk Hng) as Hc. rewrite Hid.
     rewrite spec1_cons in Hq. set (x := spec1 buffer (neg1 c) id K) in *.
-    destruct (ev1_of id b) as [e|] eqn:Ev.
-    - destruct (V1 id e Ev) as (ng & Hn & Hv). assert (ng = neg1 c) as -> by congruence. fold x in Hv.
-      rewrite (spec_block1_some _ _ _ _ _ _ Ev Hc Hv) in Hq.
-      pose proof (heqv1_formed_eq _ _ Hq (formed_after_ev1 _ _ _ Hc Hv)) as Heq.
-      split.
-      + intros e' [= <-]. eapply rrow1_succeeds; eauto.
-      + rewrite Heq. apply inverse1; auto.
-    - split; [intros e' [=]|].
-      eapply heqv1_trans; [exact Hq|]. apply spec_block1_none; auto. }
+    destruct (evl_dec (evl1_of id b)) as [Ev|Ev].
+    - rewrite Ev. split; [exact I|]. cbn [rspec_evs1 fold_left].
+      eapply heqv1_trans; [exact Hq|]. apply spec_block1_none; auto.
+    - destruct (V1 id Ev) as (ng & Hn & Hv). assert (ng = neg1 c) as -> by congruence. fold x in Hv.
+      rewrite (spec_block1_some _ _ _ _ _ Ev Hc Hv) in Hq.
+      pose proof (heqv1_formed_eq _ _ Hq (formed_after_evs1 _ _ _ Hc Hv Ev)) as Heq.
+      destruct (Hok id) as [Sh _]. split.
+      + eapply rrows1_succeed; eauto.
+      + rewrite Heq. apply inverse1_evs; auto. }
   assert (F2 : forall id c, find2 id (cs2 s) = Some c ->
-             (forall e, ev2_of (id2 c) b = Some e -> exists r, rrow2_of e c = ROk r) /\
-             heqv2 (match ev2_of (id2 c) b with Some e => rspec_ev2 e (proj2 c) | None => proj2 c end)
-                   (spec2 buffer (neg2 c) id K)).
+             rrows_ok2 (evl2_of (id2 c) b) c /\
+             heqv2 (rspec_evs2 (evl2_of (id2 c) b) (proj2 c)) (spec2 buffer (neg2 c) id K)).
   { intros id c Ef. destruct (row_facts2 _ _ _ _ _ HJ Ef) as (Hq & _ & Hid & Hng).
     pose proof (spec2_cinv _ _ _ _ _ _ Hk Hng) as Hc. rewrite Hid.
     rewrite spec2_cons in Hq. set (x := spec2 buffer (neg2 c) id K) in *.
-    destruct (ev2_of id b) as [e|] eqn:Ev.
-    - destruct (V2 id e Ev) as (ng & Hn & Hv). assert (ng = neg2 c) as -> by congruence. fold x in Hv.
-      rewrite (spec_block2_some _ _ _ _ _ _ Ev Hc Hv) in Hq.
-      pose proof (heqv2_formed_eq _ _ Hq (formed_after_ev2 _ _ _ Hc Hv)) as Heq.
-      split.
-      + intros e' [= <-]. eapply rrow2_succeeds; eauto.
-      + rewrite Heq. apply inverse2; auto.
-    - split; [intros e' [=]|].
-      eapply heqv2_trans; [exact Hq|]. apply spec_block2_none; auto. }
-  destruct (revert_block_rows b s Hs Hn1 Hn2) as (s' & E & Hs' & Hf1 & Hf2).
-  { intros id e Ev. destruct (V1 id e Ev) as (ng & Hn & _). apply negof1_some in Hn. destruct Hn as (c & Ef & _).
-    destruct (F1 id c Ef) as (P & _). destruct (row_facts1 _ _ _ _ _ HJ Ef) as (_ & _ & Hid & _).
-    rewrite Hid in P. destruct (P e Ev) as [r Hr]. eauto. }
-  { intros id e Ev. destruct (V2 id e Ev) as (ng & Hn & _). apply negof2_some in Hn. destruct Hn as (c & Ef & _).
-    destruct (F2 id c Ef) as (P & _). destruct (row_facts2 _ _ _ _ _ HJ Ef) as (_ & _ & Hid & _).
-    rewrite Hid in P. destruct (P e Ev) as [r Hr]. eauto. }
+    destruct (evl_dec (evl2_of id b)) as [Ev|Ev].
+    - rewrite Ev. split; [exact I|]. cbn [rspec_evs2 fold_left].
+      eapply heqv2_trans; [exact Hq|]. apply spec_block2_none; auto.
+    - destruct (V2 id Ev) as (ng & Hn & Hv). assert (ng = neg2 c) as -> by congruence. fold x in Hv.
+      rewrite (spec_block2_some _ _ _ _ _ Ev Hc Hv) in Hq.
+      pose proof (heqv2_formed_eq _ _ Hq (formed_after_evs2 _ _ _ Hc Hv Ev)) as Heq.
+      destruct (Hok id) as [_ Sh]. split.
+      + eapply rrows2_succeed; eauto.
+      + rewrite Heq. apply inverse2_evs; auto. }
+  assert (I1 : forall id c, find1 id (cs1 s) = Some c -> id1 c = id) by (intros id c Ef; apply (find1_in_ids _ _ _ Ef)).
+  assert (I2 : forall id c, find2 id (cs2 s) = Some c -> id2 c = id) by (intros id c Ef; apply (find2_in_ids _ _ _ Ef)).
+  destruct (revert_block_rows b s Hs) as (s' & E & Hs' & Hf1 & Hf2).
+  { intros id Ev. destruct (V1 id Ev) as (ng & Hn & _). unfold negof1 in Hn. destruct (find1 id (cs1 s)); [discriminate|discriminate]. }
+  { intros id Ev. destruct (V2 id Ev) as (ng & Hn & _). unfold negof2 in Hn. destruct (find2 id (cs2 s)); [discriminate|discriminate]. }
+  { intros id c Ef. destruct (F1 id c Ef) as (P & _). rewrite (I1 id c Ef) in P. exact P. }
+  { intros id c Ef. destruct (F2 id c Ef) as (P & _). rewrite (I2 id c Ef) in P. exact P. }
   assert (N1 : forall id, negof1 s' id = negof1 s id).
   { apply (negof1_map s s' (revrow1 b) Hf1). intros id c Ef. destruct (F1 id c Ef) as (P & _).
     destruct (revrow1_proj b c P) as [_ B]. apply stat1_id in B. tauto. }
